@@ -33,7 +33,13 @@ var libShapes = []string{
 }
 
 func libArrayCase(r *prng.R) (prog, doc, kind string) {
-	doc = `{"s":"a,b","t":"é😀 x","n":12.5}`
+	doc = `{"s":"a,b","t":"é😀 x","n":12.5,"mixed":[{"k":1},{},{"k":"a"},{},{"k":2}],"gaps":[{},{"k":"b"},{},{"k":"a"},{"k":true},{}]}`
+	if r.Intn(12) == 0 {
+		// order-by and $sort over keys of mixed types with gaps between them
+		prog = r.Pick("mixed^(k)", "mixed^(>k)", "mixed^(k, >k)", "mixed.k^($)", "$sort(mixed.k)", "gaps^(k)", "gaps^(<k).k", "$sort(gaps.k)", "mixed^($string(k))", "mixed^(k).k", "(mixed ~> $append(gaps))^(k)",
+			"$sort(mixed, function($l,$r){$l.k > $r.k})", "$sort(gaps, function($l,$r){$l.k > $r.k})", "mixed[k]^(k)", "gaps^(k)[0]", "$reverse(mixed)^(k)", "mixed^(k){$string(k): k}")
+		return prog, doc, "library-built-value:mixed-sort-keys"
+	}
 	x := libValues[r.Intn(len(libValues))]
 	y := libValues[r.Intn(len(libValues))]
 	sh := libShapes[r.Intn(len(libShapes))]
